@@ -55,6 +55,9 @@ CLAIMED = {
             "5 (C29)", "opener-count invariant per link + no-callback-after-release invariant + announcement equality at quiescence"),
  "C30": sim("Two full nodes with the real solicitation controller over a simlink pair; SolicitProtocol directives from alphabets whose protocol||context concatenations collide, with peer and transport constraints, added over time on both sides; every accepted stream is identified by its simulator-owned stream pair, both ends must belong to solicitations with identical protocol and context whose constraints admit the link, and every identical admissible pair must end up matched (unless the driver stalled a stream header past the establish deadline).",
             "5 (C30)", "pairwise identity check on both ends of every solicited stream + completeness at quiescence"),
+
+ "C36": sim("Availability clause only: the real AccessRpcServiceServer.LookupRpcService on a real bus writing to a harness stream while matching and non-matching provider controllers are added and removed in tape order and the stream is cancelled at an arbitrary point; exists/removed must strictly alternate starting with exists, the last one must equal (matching providers > 0) at every quiescent point, idle messages never repeat. The component-ID round-trip clause is a pure function of its input and is not decided by simulation.",
+            "5 (C36)", "alternation invariant on the response stream + equality with the provider count at quiescence", "Trusts go1.26.8 + runtime overlay; directive callbacks run under the bus lock and are not scheduling points (their interleaving with the server loop is decided by operation order and fake time only)."),
 }
 
 NA_PURE = {
